@@ -2,7 +2,8 @@
    Model: Codec/Codec.v ([norm] = decode then encode) over Gen_Tables.v, regenerated from /repo. *)
 From Coq Require Import List String Bool ZArith.
 Local Open Scope Z_scope.
-From Spec Require Import Base.Json Codec.Types Codec.Gen_Tables Codec.Codec Codec.CodecFacts.
+From Coq Require Import Sorting.Sorted.
+From Spec Require Import Base.Json Codec.Types Codec.Gen_Tables Codec.Codec Codec.CodecFacts Codec.PayloadFacts.
 Import ListNotations.
 Local Open Scope string_scope.
 
@@ -49,3 +50,27 @@ Example C01_example :
                ("properties", JObj [("a""b\c", JObj [("type", JStr "string")])]);
                ("x-ext", JObj [("a", JStr ""); ("z", JArr [JNull; JNum 0 0])]); ("unknownKeyword", JBool false)]).
 Proof. vm_compute. reflexivity. Qed.
+
+(* ---------- proved for every input: free-form payloads (Codec/PayloadFacts.v) ---------- *)
+(* "arbitrary free-form payloads in default/example/enum/extensions": a payload in normal form - member names strictly
+   increasing at every level, i.e. no duplicates, the order encoding/json writes maps in - comes back with its exact value,
+   whatever its size and nesting; and every payload the codec emits is in that normal form *)
+Theorem C01_payload_survives : forall j, payload_nf j -> norm gen_env false j TAny = ROk j.
+Proof. exact (payload_round_trip gen_env). Qed.
+Print Assumptions C01_payload_survives.
+
+Theorem C01_emitted_payloads_are_in_normal_form : forall j, payload_nf (norm_any j).
+Proof. exact norm_any_is_nf. Qed.
+Print Assumptions C01_emitted_payloads_are_in_normal_form.
+
+Example C01_payload_example :
+  payload_nf (JObj [("a", JArr [JObj [("y", JBool true); ("z", JStr "s")]; JNull; JNum 0 0]); ("b", JObj [])]).
+Proof.
+  constructor.
+  - repeat constructor.
+  - intros k v [H|[H|[]]]; inversion H; subst.
+    + constructor. intros x [<-|[<-|[<-|[]]]]; try constructor.
+      * repeat constructor.
+      * intros k v [H1|[H1|[]]]; inversion H1; subst; constructor.
+    + constructor; [constructor|intros k v []].
+Qed.
